@@ -124,3 +124,101 @@ func Encode(t string, v AV) ([]byte, bool) {
 	}
 	return nil, false
 }
+
+// ---------- composite values (collection framing of both protocol generations, tuple / UDT fields) ----------
+
+// Node is a CQL type tree: a scalar name, or list / set (1 child), map (2), tuple / udt (fields).
+type Node struct {
+	Name  string
+	Elems []*Node
+}
+
+// CV is an abstract column value: null, a scalar, or the children of a composite (list / set: the elements; map: key,
+// value alternating; tuple / udt: the fields PRESENT — fewer than the type has = trailing fields absent).
+type CV struct {
+	Null  bool
+	AV    AV
+	Elems []*CV
+}
+
+func be(n, width int) []byte {
+	out := make([]byte, width)
+	for i := width - 1; i >= 0; i-- {
+		out[i] = byte(n)
+		n >>= 8
+	}
+	return out
+}
+
+// count / element length of the collection framing: [int] from protocol 3, [short] (unsigned) before
+func collLen(proto, n int) ([]byte, bool) {
+	if proto >= 3 {
+		return be(n, 4), n < 1<<31
+	}
+	return be(n, 2), n < 1<<16
+}
+
+func collElem(proto int, t *Node, v *CV) ([]byte, bool) {
+	if v.Null {
+		if proto >= 3 {
+			return []byte{0xff, 0xff, 0xff, 0xff}, true
+		}
+		return nil, false // no null in the 2-byte framing
+	}
+	b, ok := EncodeCV(proto, t, v)
+	if !ok {
+		return nil, false
+	}
+	l, ok := collLen(proto, len(b))
+	return append(l, b...), ok
+}
+
+// EncodeCV returns the specification's encoding of a non-null value.
+func EncodeCV(proto int, t *Node, v *CV) ([]byte, bool) {
+	switch t.Name {
+	case "list", "set":
+		out, ok := collLen(proto, len(v.Elems))
+		if !ok {
+			return nil, false
+		}
+		for _, e := range v.Elems {
+			b, ok := collElem(proto, t.Elems[0], e)
+			if !ok {
+				return nil, false
+			}
+			out = append(out, b...)
+		}
+		return out, true
+	case "map":
+		out, ok := collLen(proto, len(v.Elems)/2)
+		if !ok {
+			return nil, false
+		}
+		for i, e := range v.Elems {
+			b, ok := collElem(proto, t.Elems[i%2], e)
+			if !ok {
+				return nil, false
+			}
+			out = append(out, b...)
+		}
+		return out, true
+	case "tuple", "udt":
+		out := []byte{}
+		if len(v.Elems) > len(t.Elems) {
+			return nil, false
+		}
+		for i, e := range v.Elems {
+			if e.Null {
+				out = append(out, 0xff, 0xff, 0xff, 0xff)
+				continue
+			}
+			b, ok := EncodeCV(proto, t.Elems[i], e)
+			if !ok || len(b) >= 1<<31 {
+				return nil, false
+			}
+			out = append(append(out, be(len(b), 4)...), b...)
+		}
+		return out, true
+	}
+	return Encode(t.Name, v.AV)
+}
